@@ -274,11 +274,11 @@ def mc(base, consts, *, spec="Spec", invariants=(), properties=(), constraint=No
     name = "MC_" + base
     lines = ["---- MODULE %s ----" % name, "EXTENDS %s" % ", ".join((base,) + tuple(extends))]
     cfg = []
+    if extra_defs:
+        lines.append(extra_defs)
     for k, v in consts.items():
         lines.append("mc_%s == %s" % (k, tla(v)))
         cfg.append("CONSTANT %s <- mc_%s" % (k, k))
-    if extra_defs:
-        lines.append(extra_defs)
     lines.append("====")
     if init and next_:
         cfg.append("INIT %s" % init)
